@@ -168,4 +168,30 @@ def c09(run, ck):
                      "targeted programs for every construct the compiler folds", assumptions=[])
 
 
-PIPELINES = {"C09": c09, "C03": c03, "C04": c04, "C05": c05, "C06": c06, "C07": c07, "C08": c08}
+def simple_violations(run, ck, verdicts, recs, topic, describe=None):
+    """Verdict tuples <<"VERDICT", id, code, ...>> from the structural trace modules."""
+    for v in verdicts:
+        cid, code = v[1], v[2]
+        rec = recs.get(cid, {})
+        extra = v[3:] if len(v) > 3 else []
+        detail = describe(rec, v) if describe else ""
+        key = "%s|%s|%s%s" % (run.prop, topic, code, ("|" + detail) if detail else "")
+        what = "%s: %s %s" % (code, (rec.get("text") or "")[:120], " ".join(str(x)[:200] for x in extra))
+        payload = {"property": run.prop, "kind": topic, "record": rec, "verdict": v, "key": key}
+        path = ck.write_replay(run, cid + key, payload)
+        run.violations.append({"key": key, "what": what, "replay": path})
+
+
+def c10(run, ck):
+    out = os.path.join(run.work, "bytecode.ndjson")
+    run.drive("bytecode", 40000 if run.thorough else 3000, out)
+    verdicts, recs = run.validate(out, "Trace_BC", cfg="Trace_BC.cfg", parts=8, label="bytecode verdicts")
+    simple_violations(run, ck, verdicts, recs, "bytecode")
+    if not verdicts:
+        # every path of every block: the AbsVM state machine with the C10 invariants
+        run.model_check("Trace_BC", cfg="Trace_BC_walk.cfg", env={"TRACE": out}, workers=6)
+    return dict(rule="real bytecode of generated programs (every operator, nested ||/&&/?:/match, calls, macros, f-strings, clock calls): forward height analysis per block, then the AbsVM "
+                     "state machine explores both successors of every conditional jump; states = reachable (program, block, pc, height)", assumptions=[])
+
+
+PIPELINES = {"C10": c10, "C09": c09, "C03": c03, "C04": c04, "C05": c05, "C06": c06, "C07": c07, "C08": c08}
